@@ -635,6 +635,13 @@ class Interp:
                 return base.value
             if attr == "name":
                 return base.name
+        if isinstance(base, TheoryObj) and base.theory == "super":
+            ci = self.repo.find_class(base.fields["cls"])
+            mro = self.repo.mro(ci) if ci else []
+            for cnext in mro[1:]:
+                if attr in cnext.methods:
+                    return FuncVal(cnext.module, f"{cnext.name}.{attr}", cnext.methods[attr], bound_self=base.fields["obj"], owner_cls=cnext.name)
+            raise Unsupported(f"super().{attr} not found above {base.fields['cls']}")
         if isinstance(base, TheoryObj):
             key = (base.theory, attr)
             if key in self.reg.theory_attrs:
@@ -1198,6 +1205,9 @@ class Interp:
             raise PyRaise(SExc(pe.cls, origin=f"calling {fv.qualname}: {pe.msg}"))
         self.call_depth += 1
         self.cur_fn.append(fv.ref)
+        owner = fv.owner_cls or (fv.qualname.split(".")[0] if "." in fv.qualname and self.repo.find_class(fv.qualname.split(".")[0]) else None)
+        self.frames = getattr(self, "frames", [])
+        self.frames.append((owner, args[0] if args else None))
         try:
             if isinstance(fv.node, ast.Lambda):
                 return self.eval(fv.node.body, env)
@@ -1208,6 +1218,7 @@ class Interp:
             return None
         finally:
             self.cur_fn.pop()
+            self.frames.pop()
             self.call_depth -= 1
 
     def construct(self, cv: ClassVal, args, kwargs):
